@@ -212,3 +212,13 @@ func VFsGet(name string) (string, bool) {
 }
 
 func vNativeFsHook(path string) Filesystem { return vCliFs }
+
+// VFsDel removes a file of the CLI harness's directory (the user deleting it).
+func VFsDel(name string) { delete(vCliFs.files, name) }
+
+// VIssuerSubjectDer: the raw issuer and subject Name elements of the first
+// certificate of an artifact file.
+func VIssuerSubjectDer(pemText string) (issuer, subject string) {
+	i, s := vIssuerSubjectDer([]byte(pemText))
+	return string(i), string(s)
+}
